@@ -484,6 +484,56 @@ Proof.
       * intros _ g Hg. discriminate.
 Qed.
 
+(* ------------------------------------------------------------------ WMS capabilities *)
+
+Lemma cap_child_permitted : forall perm w n, In n (cap_child perm w) -> perm n = true.
+Proof.
+  intros perm. fix IH 1. intros w n H. destruct w as [m o maps infos|m this ch]; cbn [cap_child] in H.
+  - destruct (perm m) eqn:E; [|contradiction]. destruct H as [H|[]]. subst. exact E.
+  - destruct (perm m) eqn:E; [|contradiction].
+    assert (S : In n (m :: flat_map (cap_child perm) ch) -> perm n = true).
+    { intros [Hm|Hs]; [subst; exact E|]. clear H. induction ch as [|c ch IHch]; [contradiction|].
+      cbn [flat_map] in Hs. apply in_app_or in Hs. destruct Hs as [Hc|Hr]; [exact (IH c n Hc)|exact (IHch Hr)]. }
+    destruct this as [t|]; [exact (S H)|].
+    destruct (flat_map (cap_child perm) ch) eqn:F; [contradiction|]. exact (S H).
+Qed.
+
+Lemma capabilities_only_permitted : forall tree r isect names n,
+  wms_capabilities tree (Some r) isect = CAP_ok names -> r_kind r = A_partial -> In n names ->
+  cap_permitted r isect n = true.
+Proof.
+  intros tree r isect names n H K Hin. unfold wms_capabilities in H. rewrite K in H. inversion H; subst. clear H.
+  apply in_flat_map in Hin. destruct Hin as [w [_ Hw]]. exact (cap_child_permitted _ w n Hw).
+Qed.
+
+Lemma cap_permitted_facts : forall r isect n,
+  cap_permitted r isect n = true ->
+  exists p, assoc n (r_layers r) = Some p /\ truthy_f (p_map p) = true /\
+            (forall g, p_lim p = Some g -> isect g n = true) /\
+            (forall g, r_lim r = Some g -> isect g n = true).
+Proof.
+  intros r isect n H. unfold cap_permitted in H. destruct (assoc n (r_layers r)) as [p|]; [|discriminate].
+  apply andb_true_iff in H. destruct H as [H H3]. apply andb_true_iff in H. destruct H as [H1 H2].
+  exists p. split; [reflexivity|]. split; [exact H1|]. split.
+  - intros g E. rewrite E in H2. exact H2.
+  - intros g E. rewrite E in H3. exact H3.
+Qed.
+
+Lemma capabilities_listed_facts : forall tree r isect names n,
+  wms_capabilities tree (Some r) isect = CAP_ok names -> r_kind r = A_partial -> In n names ->
+  exists p, assoc n (r_layers r) = Some p /\ truthy_f (p_map p) = true /\
+            (forall g, p_lim p = Some g -> isect g n = true) /\
+            (forall g, r_lim r = Some g -> isect g n = true).
+Proof.
+  intros tree r isect names n H K Hin. apply cap_permitted_facts.
+  exact (capabilities_only_permitted tree r isect names n H K Hin).
+Qed.
+
+Lemma capabilities_unauthorized : forall tree r isect,
+  r_kind r <> A_full -> r_kind r <> A_partial -> r_kind r <> A_unauth ->
+  wms_capabilities tree (Some r) isect = CAP_403.
+Proof. intros tree r isect H1 H2 H3. unfold wms_capabilities. destruct (r_kind r); congruence. Qed.
+
 (* ------------------------------------------------------------------ tile services *)
 
 Lemma authorize_tile_ok_permitted : forall key n r lim,
@@ -902,3 +952,13 @@ Example ex_fast_path : fast_path_ok ex_ro (mk_lmeta M_RGB (Some (mk_lopts (Some 
                        /\ fast_path_ok ex_ro ex_m false = false
                        /\ fast_path_ok ex_ro (mk_lmeta M_RGB (Some (mk_lopts (Some false) None)) false) true = false.
 Proof. repeat split; reflexivity. Qed.
+
+Example ex_caps : wms_capabilities ex_tree (Some ex_cb) (fun _ _ => true) = CAP_ok [1].
+Proof. reflexivity. Qed.
+Example ex_caps_group :
+  wms_capabilities ex_tree
+    (Some (mk_cbres A_partial [(2, mk_perm F_truthy F_false F_false None); (4, mk_perm F_true F_false F_false (Some 7));
+                               (3, mk_perm F_false F_true F_true None); (6, mk_perm F_true F_false F_false None)] None))
+    (fun _ _ => true) = CAP_ok [2; 4].
+Proof. reflexivity. Qed.
+
